@@ -9,7 +9,8 @@ validator appends any message carrying its own sender id; anybody appends messag
 does not verify (`ok = false`); a message whose sender is a correct validator and whose signature
 verifies enters the log only as an output of that validator's `step`. Timeouts fire only if the node
 scheduled them (`Output.schedule` in its outputs; the round-0 `NewHeight` timeout is scheduled by
-`OnStart`), any time later, any number of times. Block bodies
+`OnStart`), any time later, any number of times. A node hears its OWN proposal, block part and votes
+through its internal queue: any queued own message, at any later time, in any order (`Item.own`). Block bodies
 and `VoteSetMaj23` claims are unsigned: any block id / any claim may be handed to any node at any
 time. Core Lean only. -/
 namespace Tmv.Net
@@ -73,10 +74,34 @@ def Net.init : Net := ⟨fun _ => NodeState.init, []⟩
 def upd (f : Nat → NodeState) (p : Nat) (s : NodeState) : Nat → NodeState :=
   fun q => if q = p then s else f q
 
-/-- node `p` takes one input; whatever it signs while handling it is appended to the log, in order -/
-def Net.feed (nc : NetCfg) (s : Net) (p : Nat) (i : Input) : Net :=
+/-- one item of work of a node's receive routine: an external input, or ONE of the node's own
+messages waiting in its internal queue — any one of them, at any later time. (`receiveRoutine`
+selects among the peer queue, the internal queue and the ticker; `sendInternalMessage` falls back to a
+goroutine when the 1000-slot internal queue is full, so own messages can overtake each other: the
+model therefore lets a node hear its own proposal / block part / votes in any order and arbitrarily
+late. The FIFO-right-after-the-input schedule of `Tmv.Cons.step` is the special case `ext` followed
+by `own 0` until the queue is empty.) -/
+inductive Item
+  | ext (i : Input)
+  | own (k : Nat)
+
+/-- take the `k`-th own message off the internal queue and handle it -/
+def handleOwn (c : Cfg) (s : NodeState) (k : Nat) : NodeState :=
+  match s.queue[k]? with
+  | some m => handleInternal c { s with queue := s.queue.eraseIdx k } m
+  | none => s
+
+/-- a halted node or one that has committed does nothing more at this height -/
+def stepItem (c : Cfg) (s : NodeState) (it : Item) : NodeState :=
+  if s.halted ∨ s.decided.isSome then s else
+  match it with
+  | .ext i => handleInput c s i
+  | .own k => handleOwn c s k
+
+/-- node `p` handles one item; whatever it signs while handling it is appended to the log, in order -/
+def Net.feed (nc : NetCfg) (s : Net) (p : Nat) (it : Item) : Net :=
   let old := s.nodes p
-  let new := step (nc.node p) old i
+  let new := stepItem (nc.node p) old it
   { nodes := upd s.nodes p new, log := s.log ++ (new.out.drop old.out.length).filterMap (outMsg p) }
 
 def Net.append (s : Net) (m : Msg) : Net := { s with log := s.log ++ [m] }
@@ -89,18 +114,20 @@ instance (nc : NetCfg) (p : Nat) : Decidable (nc.correct p) := by unfold NetCfg.
 inductive NetStep (nc : NetCfg) : Net → Net → Prop
   /-- any logged message reaches any correct node through any peer -/
   | deliver (s : Net) (p k : Nat) (peer : Peer) (hp : nc.correct p) (hk : k < s.log.length) :
-      NetStep nc s (s.feed nc p (toInput nc s.log[k] peer))
+      NetStep nc s (s.feed nc p (.ext (toInput nc s.log[k] peer)))
   /-- any block body reaches any correct node -/
-  | block (s : Net) (p b : Nat) (hp : nc.correct p) : NetStep nc s (s.feed nc p (.blockComplete b))
+  | block (s : Net) (p b : Nat) (hp : nc.correct p) : NetStep nc s (s.feed nc p (.ext (.blockComplete b)))
   /-- any peer claims any majority to any correct node -/
   | claim (s : Net) (p r : Nat) (t : VType) (peer : Peer) (bid : Bid) (hp : nc.correct p) :
-      NetStep nc s (s.feed nc p (.peerMaj23 r t peer bid))
+      NetStep nc s (s.feed nc p (.ext (.peerMaj23 r t peer bid)))
   /-- a timeout the node scheduled fires (`OnStart` schedules the round-0 `NewHeight` timeout) -/
   | fire (s : Net) (p r : Nat) (st : Step) (hp : nc.correct p)
       (hs : (r = 0 ∧ st = .newHeight) ∨ Output.schedule r st ∈ (s.nodes p).out) :
-      NetStep nc s (s.feed nc p (.timeout r st))
+      NetStep nc s (s.feed nc p (.ext (.timeout r st)))
   /-- the mempool reports transactions -/
-  | txs (s : Net) (p : Nat) (hp : nc.correct p) : NetStep nc s (s.feed nc p .txsAvailable)
+  | txs (s : Net) (p : Nat) (hp : nc.correct p) : NetStep nc s (s.feed nc p (.ext .txsAvailable))
+  /-- the node hears one of its own queued messages (any one) -/
+  | own (s : Net) (p k : Nat) (hp : nc.correct p) : NetStep nc s (s.feed nc p (.own k))
   /-- a faulty validator signs anything; anybody sends messages whose signature does not verify -/
   | byz (s : Net) (m : Msg) (hm : nc.faulty m.sender = true ∨ m.ok = false) : NetStep nc s (s.append m)
 
@@ -119,7 +146,9 @@ def voteOf (m : Msg) : Option VoteLog.VoteMsg :=
 
 def voteLog (log : List Msg) : VoteLog.Log := log.filterMap voteOf
 
-/-! ### executable transition for the driver: an op is applied only if it is a `NetStep` -/
+/-! ### executable transitions for the driver: an op is applied only if it is a `NetStep`
+(or, with `drain`, a `NetStep` followed by the node hearing its own messages in FIFO order until its
+queue is empty — the schedule of `Tmv.Cons.step`) -/
 
 inductive Op
   | deliver (p k : Nat) (peer : Peer)
@@ -127,22 +156,36 @@ inductive Op
   | claim (p r : Nat) (t : VType) (peer : Peer) (bid : Bid)
   | fire (p r : Nat) (st : Step)
   | txs (p : Nat)
+  | own (p k : Nat)
   | byz (m : Msg)
 
+/-- node `p` hears its own queued messages in FIFO order until none is left (at most `fuel`) -/
+def Net.drainOwn (nc : NetCfg) (p : Nat) : Nat → Net → Net
+  | 0, s => s
+  | fuel + 1, s =>
+    if (s.nodes p).halted ∨ (s.nodes p).decided.isSome ∨ (s.nodes p).queue.isEmpty then s
+    else Net.drainOwn nc p fuel (s.feed nc p (.own 0))
+
+def Net.feedD (nc : NetCfg) (s : Net) (p : Nat) (i : Input) (drain : Bool) : Net :=
+  let s' := s.feed nc p (.ext i)
+  if drain then s'.drainOwn nc p drainFuel else s'
+
 /-- `none` = the op is not a transition of the network in this state -/
-def Net.apply (nc : NetCfg) (s : Net) : Op → Option Net
+def Net.apply (nc : NetCfg) (s : Net) (drain : Bool) : Op → Option Net
   | .deliver p k peer =>
     if nc.correct p then
       match s.log[k]? with
-      | some m => some (s.feed nc p (toInput nc m peer))
+      | some m => some (s.feedD nc p (toInput nc m peer) drain)
       | none => none
     else none
-  | .block p b => if nc.correct p then some (s.feed nc p (.blockComplete b)) else none
-  | .claim p r t peer bid => if nc.correct p then some (s.feed nc p (.peerMaj23 r t peer bid)) else none
+  | .block p b => if nc.correct p then some (s.feedD nc p (.blockComplete b) drain) else none
+  -- (the reactor applies a `VoteSetMaj23` claim directly, outside the receive routine: never drains)
+  | .claim p r t peer bid => if nc.correct p then some (s.feedD nc p (.peerMaj23 r t peer bid) false) else none
   | .fire p r st =>
     if nc.correct p ∧ ((r = 0 ∧ st = .newHeight) ∨ Output.schedule r st ∈ (s.nodes p).out) then
-      some (s.feed nc p (.timeout r st)) else none
-  | .txs p => if nc.correct p then some (s.feed nc p .txsAvailable) else none
+      some (s.feedD nc p (.timeout r st) drain) else none
+  | .txs p => if nc.correct p then some (s.feedD nc p .txsAvailable drain) else none
+  | .own p k => if nc.correct p then some (s.feed nc p (.own k)) else none
   | .byz m => if nc.faulty m.sender = true ∨ m.ok = false then some (s.append m) else none
 
 end Tmv.Net
